@@ -109,15 +109,15 @@ class FakeInterp1d:
         self.fill_value = fill_value
         if isinstance(fill_value, str) and fill_value == 'extrapolate':
             if bounds_error:
-                raise ValueError("Cannot extrapolate and raise at the same time.")
+                raise symx.simulated(ValueError("Cannot extrapolate and raise at the same time."))
             bounds_error = False
         if bounds_error is None:
             bounds_error = True
         self.bounds_error = bounds_error
         if len(self.x) != len(self.y):
-            raise ValueError('x and y arrays must be equal in length along interpolation axis.')
+            raise symx.simulated(ValueError('x and y arrays must be equal in length along interpolation axis.'))
         if len(self.x) < 2 and kind == 'linear':
-            raise ValueError('x and y arrays must have at least 2 entries')
+            raise symx.simulated(ValueError('x and y arrays must have at least 2 entries'))
         # sort by x (scipy: assume_sorted=False) - forks on symbolic order
         if not assume_sorted:
             idx = list(range(len(self.x)))
@@ -142,13 +142,13 @@ class FakeInterp1d:
         n = len(x)
         if q < x[0]:
             if self.bounds_error:
-                raise ValueError('A value in x_new is below the interpolation range.')
+                raise symx.simulated(ValueError('A value in x_new is below the interpolation range.'))
             if isinstance(self.fill_value, str):
                 return self._lin(0, q) if self.kind == 'linear' else FakeInterp1d.h.fun(f'interp_{self.kind}', q, *self.x, *self.y)
             return self._fill(True)
         if q > x[n - 1]:
             if self.bounds_error:
-                raise ValueError('A value in x_new is above the interpolation range.')
+                raise symx.simulated(ValueError('A value in x_new is above the interpolation range.'))
             if isinstance(self.fill_value, str):
                 return self._lin(n - 2, q) if self.kind == 'linear' else FakeInterp1d.h.fun(f'interp_{self.kind}', q, *self.x, *self.y)
             return self._fill(False)
